@@ -1,5 +1,6 @@
 """Checks of the single-spawn family on engine E2: C05 (redirection wiring), C07 (Popen iff started,
 failed launches leave nothing), C08 (no pipe end leaks), C18 (clean signal state)."""
+import json
 import os
 
 import common as C
@@ -92,6 +93,8 @@ def user_fd_map(s):
     file_streams = [i for i, st in enumerate(STREAMS) if s["cfg"][st].startswith("file")]
     k = 0
     for ln in s["out"]:
+        if ln.startswith("result "):
+            break                       # (a relaunch of the same process opens its files again)
         if ln.startswith("userfd file "):
             m[int(ln.split()[2])] = 2000 + file_streams[k]
             k += 1
@@ -136,8 +139,14 @@ def conformance(chk, scns, tag):
             continue
         fm = e2.FdMap(user_fd_map(s))
         plog = s["logs"].get(s["parent_pid"], [])
+        ri = next((i for i, l in enumerate(plog) if l.startswith("mark relaunch")), None)
+        if ri is not None:
+            plog = plog[:ri]           # what follows belongs to the second launch of the same process (C18)
         par_r, _, _ = e2.encode_log(plog, fm, False)
+        first = [int(l.split("=")[1].split()[0]) for l in plog if l.startswith("fork = ") and int(l.split("=")[1].split()[0]) > 0]
         cpids = [p for p in s["logs"] if p != s["parent_pid"]]
+        if first and first[0] in s["logs"]:
+            cpids = [first[0]]
         chi_r, allocs, execs = ([], [], [])
         if cpids:
             chi_r, allocs, execs = e2.encode_log(s["logs"][cpids[0]], fm, True)
@@ -178,6 +187,10 @@ def table(s, tag):
 def child_report(s):
     if not s["reps"]:
         return None
+    plog = s["logs"].get(s["parent_pid"], [])
+    first = [int(l.split("=")[1].split()[0]) for l in plog if l.startswith("fork = ") and int(l.split("=")[1].split()[0]) > 0]
+    if first and first[0] in s["reps"]:
+        return e2.parse_report(s["reps"][first[0]])
     return e2.parse_report(list(s["reps"].values())[0])
 
 
@@ -204,6 +217,8 @@ def judge(pid, s, chk):
                 bad("invalid combination was not refused with a logic error (result %s)" % res)
             if forked:
                 bad("a process was started for an invalid combination")
+        if not invalid and res != "ok" and not s["fault"] and not s["exec_fail"]:
+            bad("a valid combination of redirections was refused: %s" % res)
         # the parent's own standard streams are never touched
         for i in (0, 1, 2):
             if before.get(i) != after.get(i):
@@ -281,6 +296,24 @@ def judge(pid, s, chk):
                 bad("child started with SIGPIPE not at its default action (sa_handler=%s)" % rep.get("sigpipe_at_start"))
         elif res == "ok":
             bad("no self-report from the child")
+        if s.get("relaunch"):
+            # the second launch of the same process, after the parent's disposition / mask changed
+            ri = next((i for i, l in enumerate(plog) if l.startswith("mark relaunch")), None)
+            pid2 = None
+            if ri is not None:
+                for ln in plog[ri:]:
+                    if ln.startswith("fork = ") and int(ln.split("=")[1].split()[0]) > 0:
+                        pid2 = int(ln.split("=")[1].split()[0])
+                        break
+            rep2 = e2.parse_report(s["reps"][pid2]) if pid2 in s.get("reps", {}) else None
+            if rep2 is None or "sig" not in rep2:
+                bad("second launch (after the parent's SIGPIPE disposition became %s): no self-report from the child" % s["relaunch"][0])
+            else:
+                if rep2["sig"]["blk"] != 0:
+                    bad("second launch: child started with blocked signals %x" % rep2["sig"]["blk"])
+                if rep2.get("sigpipe_at_start") != 0:
+                    bad("second launch of the same process, after the parent's SIGPIPE disposition became %s: child started with SIGPIPE not at its default action (sa_handler=%s)" % (
+                        s["relaunch"][0], rep2.get("sigpipe_at_start")))
 
 
 PLAN = {"C05": (1, 1), "C07": (1, 1), "C08": (1, 1), "C18": (1, 1)}
@@ -335,9 +368,89 @@ def scenarios_for(pid, tier, r):
         some = [c for c in cfgs if c["stdin"] != "merge"]
         for i, m in enumerate(masks):
             c = some[r.below(len(some))]
-            scns.append(mk_scenario("c18-%d" % n, c, mask=m, sigpipe=r.choice(["ign", "dfl"])))
+            sc = mk_scenario("c18-%d" % n, c, mask=m, sigpipe=r.choice(["ign", "dfl"]))
+            if i % 3 == 0 and "pipe" not in (c["stdin"], c["stdout"], c["stderr"]):
+                # launched twice in one process; in between the parent changes its SIGPIPE disposition and the mask
+                d2 = "ign" if sc["sigpipe"] == "dfl" else "dfl"
+                m2 = "".join("%02x" % r.below(256) for _ in range(8))
+                sc["spec"][-2:-2] = ["relaunch_sigpipe %s" % d2, "relaunch_mask %s" % m2]
+                sc["relaunch"] = (d2, m2)
+            scns.append(sc)
             n += 1
     return scns
+
+
+def c07_real_causes(chk, tier, explicit=None):
+    """C07 with the failure causes the operating system really produces (no injection): a working directory that is a
+    regular file / a device / missing / below a file / a symlink loop / over-long, a program that is missing / not
+    executable / a directory / empty / garbage / below a file -- the error must carry that operating-system error,
+    and afterwards no child of the attempt and no descriptor of the attempt may remain"""
+    import os
+    causes = [
+        ("cwd is a regular file", {"cwd": "$WD/plain"}, 20), ("cwd is a device", {"cwd": "/dev/null"}, 20),
+        ("cwd is missing", {"cwd": "$WD/nope"}, 2), ("cwd lies below a regular file", {"cwd": "$WD/plain/sub"}, 20),
+        ("cwd is a symlink loop", {"cwd": "$WD/loop"}, 40), ("cwd has an over-long component", {"cwd": "$WD/" + "n" * 300}, 36),
+        ("program is missing", {"prog": "$WD/nope"}, 2), ("program is not executable", {"prog": "$WD/plain"}, 13),
+        ("program is a directory", {"prog": "$WD/adir"}, 13), ("program is an empty file", {"prog": "$WD/empty"}, 8),
+        ("program is neither ELF nor script", {"prog": "$WD/garbage"}, 8), ("program lies below a regular file", {"prog": "$WD/plain/x"}, 20),
+    ]
+    tpls = explicit
+    if tpls is None:
+        tpls = []
+        for ci in range(len(causes)):
+            for streams in (("none", "none", "none"), ("pipe", "pipe", "pipe")):
+                for det in (False, True):
+                    tpls.append({"cause": ci, "streams": list(streams), "detached": det})
+    scns = []
+    for q, t in enumerate(tpls):
+        name, what, errno = causes[t["cause"]]
+
+        def specfn(wd, t=t, what=what):
+            sub = lambda x: x.replace("$WD", wd)
+            spec = ["kind create", "argv %s,%s" % (e2.hexs(sub(what["prog"])) if "prog" in what else "STUB", e2.hexs("x"))]
+            for st, k in zip(STREAMS, t["streams"]):
+                spec.append("%s %s" % (st, k))
+            if "cwd" in what:
+                spec.append("cwd %s" % e2.hexs(sub(what["cwd"])))
+            if t["detached"]:
+                spec.append("detached 1")
+            spec += ["stubcfg exit 0", "after wait"]
+            return spec
+        scns.append({"id": "c07-os-%d" % q, "tpl": t, "specfn": specfn, "mkdirs": ["adir"],
+                     "files": {"plain": b"plain file\n", "empty": b"", "garbage": b"neither ELF nor script\n"},
+                     "modes": {"plain": 0o644, "empty": 0o755, "garbage": 0o755}, "symlinks": {"loop": "loop"}, "timeout": 20})
+    e2.run_scenarios(scns, "C07os")
+    n_ok = 0
+    for s in scns:
+        t = s["tpl"]
+        name, what, errno = causes[t["cause"]]
+        desc = "%s: %s, streams %s%s" % (s["id"], name, "/".join(t["streams"]), ", detached" if t["detached"] else "")
+        replay = "oscause\n" + json.dumps(t, sort_keys=True)
+        if s.get("timed_out") or s.get("rc") != 0:
+            chk.violation("C07: the launch did not return [%s]" % desc, replay)
+            continue
+        res = result_of(s) or "?"
+        bad = []
+        if res != "err io:%d" % errno:
+            bad.append("returned %s, expected the operating-system error %d of the step that failed" % (res, errno))
+        zl = [ln for ln in s["out"] if ln.startswith("zombies ")]
+        if zl and (int(zl[0].split()[1]) or int(zl[0].split()[3])):
+            bad.append("after the failed launch %s" % zl[0])
+        before = after = None
+        for ln in s["out"]:
+            if ln.startswith("fds_before "):
+                before = sorted(e2.parse_fdtable(ln))
+            elif ln.startswith("fds_after_err ") or ln.startswith("fds_after "):
+                after = sorted(e2.parse_fdtable(ln))
+        if before is not None and after is not None and before != after:
+            bad.append("descriptors of the attempt remain open in the parent: before=%s after=%s" % (before, after))
+        if bad:
+            chk.violation("C07: %s [%s]" % ("; ".join(bad), desc), replay)
+        else:
+            n_ok += 1
+    chk.cov["evaluations"] = chk.cov.get("evaluations", 0) + len(scns)
+    chk.cov["traces_validated_against_impl"] = chk.cov.get("traces_validated_against_impl", 0) + n_ok
+    chk.cov["real_failure_causes"] = len(scns)
 
 
 DEPS = ["theories/Proofs/SpawnProofs.vo", "theories/Proofs/SigProofs.vo"]
